@@ -19,6 +19,9 @@ def cfgs_lifecycle(tier, rng):
     for k, (h, m) in enumerate(combos * (1 if tier == "quick" else 3)):
         out.append(cfgmod.make(n=ns[k % len(ns)], head=h, manual=m, limit=pick(rng, [1, 2, 4]), cap=pick(rng, [1, 3]),
                                payload=pick(rng, [0, 2]), plans=k % 2, serial=1, history=1, log="off"))
+    # states and root head with two / three injected bases (the variadic injection chain), configuration options chained in the reverse order
+    out.append(cfgmod.make(n=3, head=1, manual=0, limit=2, cap=2, payload=0, plans=1, serial=0, history=1, log="off", inj_state=2, inj_root=2, order=1))
+    out.append(cfgmod.make(n=2, head=1, manual=1, limit=2, cap=3, payload=2, plans=0, serial=1, history=1, log="off", inj_state=3, inj_root=0))
     return out
 
 P_LIFE = BASE.with_(w_ops=dict(update=8, react=3, query=1, change=5, immChange=6, changeWith=2, immChangeWith=2, succeed=2, fail=1,
@@ -30,8 +33,11 @@ P_LIFE = BASE.with_(w_ops=dict(update=8, react=3, query=1, change=5, immChange=6
 def cfgs_requests(tier, rng):
     out = [cfgmod.make(n=3, head=1, manual=0, limit=3, cap=2, payload=0, plans=0, history=1, log="off", inj_state=1, inj_root=1),
            # requests are also made "by a plan" and while task statuses are being reported: the same profile with plans compiled in
-           cfgmod.make(n=3, head=1, manual=0, limit=2, cap=2, payload=0, plans=1, history=1, log="off"),
-           cfgmod.make(n=4, head=1, manual=1, limit=3, cap=3, payload=2, plans=1, history=1, log="off")]
+           cfgmod.make(n=3, head=1, manual=0, limit=2, cap=4, payload=0, plans=1, history=1, log="off"),
+           cfgmod.make(n=4, head=1, manual=1, limit=3, cap=1, payload=2, plans=1, history=1, log="off", order=1),
+           # two / three injected bases on every state and on the root head: every one of them is consulted as a guard, in order
+           cfgmod.make(n=3, head=1, manual=0, limit=2, cap=2, payload=0, plans=0, history=1, log="off", inj_state=2, inj_root=2),
+           cfgmod.make(n=2, head=0, manual=1, limit=3, cap=2, payload=2, plans=0, history=1, log="off", inj_state=3, order=1)]
     for k in range(4 if tier == "quick" else 12):
         out.append(cfgmod.make(n=pick(rng, [2, 3, 4, 5]), head=k % 2, manual=(k // 2) % 2, limit=[1, 2, 4, 3][k % 4], cap=2,
                                payload=pick(rng, [0, 2]), plans=0, serial=0, history=1, log="off"))
@@ -47,11 +53,20 @@ def cfgs_limit(tier, rng):
     out = []
     for k, L in enumerate([1, 2, 3, 4] if tier == "quick" else [1, 2, 3, 4, 8, 1, 2, 4]):
         out.append(cfgmod.make(n=pick(rng, [2, 3, 4]), head=k % 2, manual=(k // 2) % 2, limit=L, plans=0, history=1, log="off"))
+    # the limit must not depend on the other configuration options: plans compiled in with a task capacity above / below the limit, options chained
+    # in either order; one machine whose states have two injected bases (each of them a guard of its own)
+    out.append(cfgmod.make(n=3, head=1, manual=0, limit=2, cap=5, plans=1, history=1, log="off"))
+    out.append(cfgmod.make(n=3, head=0, manual=1, limit=3, cap=1, plans=1, payload=2, history=1, log="off", order=1))
+    out.append(cfgmod.make(n=2, head=1, manual=0, limit=4, cap=2, plans=1, history=0, log="off", order=1))
+    out.append(cfgmod.make(n=3, head=1, manual=1, limit=2, cap=2, plans=0, history=1, log="off", inj_state=2, inj_root=1))
     return out
 
 def cfgs_cycle(tier, rng):
     out = [cfgmod.make(n=2, head=1, manual=0, limit=2, cap=2, plans=0, log="off", inj_state=1, inj_root=1, defroot=0x0555, defstate=0x0aaa & ~0x200),   # one injected base, classes define only some callbacks (query/preReact/... inherited)
-           cfgmod.make(n=3, head=1, manual=0, limit=2, cap=2, plans=1, log="off", inj_state=1, defstate=0)]
+           cfgmod.make(n=3, head=1, manual=0, limit=2, cap=2, plans=1, log="off", inj_state=1, defstate=0),
+           # two and three injected bases (the variadic injection chain: every phase callback and query reaches each of them once, in order)
+           cfgmod.make(n=2, head=1, manual=0, limit=2, cap=2, plans=0, log="off", inj_state=2, inj_root=2),
+           cfgmod.make(n=3, head=1, manual=0, limit=2, cap=2, plans=1, log="off", inj_state=3, inj_root=0, order=1)]
     for k in range(4 if tier == "quick" else 10):
         out.append(cfgmod.make(n=pick(rng, [1, 2, 3, 5, 9]), head=k % 2, manual=0, limit=2, cap=2, plans=(k // 2) % 2, log="off",
                                defroot=pick(rng, [FULL, FULL, 0x0fff & ~0x8]), defstate=pick(rng, [FULL, FULL, FULL & ~0x10])))
@@ -65,6 +80,7 @@ def cfgs_views(tier, rng):
     for k in range(5 if tier == "quick" else 12):
         out.append(cfgmod.make(n=pick(rng, [1, 2, 3, 4]), head=k % 2, manual=(k // 2) % 2, limit=2, cap=2, ctx=k % 4 if k < 4 else k % 3, payload=pick(rng, [0, 2]),
                                inj_state=pick(rng, [0, 0, 1]), plans=k % 2, history=1, log="on" if k % 2 else "off"))
+    out.append(cfgmod.make(n=3, head=1, manual=0, limit=2, cap=2, ctx=0, payload=2, inj_state=2, inj_root=2, plans=1, history=1, log="off", order=1))   # every injected base gets its own control view
     return out
 
 P_VIEWS = P_LIFE.with_(w_ops=dict(copy=0, loadfrom=0), w_meth=dict(guard=4, phase=4, life=2, plancb=1, query=2))
@@ -77,6 +93,7 @@ def cfgs_payloads(tier, rng):
                                plans=(k // 5) % 2 if tier != "quick" else 0, history=1, log="off"))
     if tier != "quick" or True:
         out.append(cfgmod.make(n=3, head=1, manual=0, limit=3, cap=3, payload=2, plans=1, history=1, log="on"))
+        out.append(cfgmod.make(n=3, head=1, manual=1, limit=2, cap=2, payload=4, plans=1, history=1, log="off", inj_state=2, order=1))   # payloads seen by injected guards / enter callbacks, options in reverse order
     return out
 
 P_PAY = P_REQ.with_(w_ops=dict(changeWith=8, immChangeWith=8, change=4, immChange=4, plan_append=2, plan_appendWith=4, succeed=3, copy=1),
